@@ -56,6 +56,13 @@ class Check(Property):
                     # the spelling (alone and inside compound expressions) is looked up before it is defined
                     for pre in rng.sample([nm, nm + "/second", "meter/" + nm], rng.randint(1, 3)):
                         steps.append({"f": "parse", "s": pre})
+                    # ... and asked for its dimensionality / root units / base units under that spelling (memos keyed by spelling)
+                    if nm in ("ab", "fm", "mt"):
+                        for kind_ in rng.sample(["root", "dim", "base"], rng.randint(1, 3)):
+                            st_ = {"f": kind_, "u": [[nm, "1/1"]]}
+                            if kind_ == "base":
+                                st_["system"] = None
+                            steps.append(st_)
                 ref = rng.choice(["meter", "second", "gram"])
                 steps.append({"f": "define", "name": nm, "scale": frac_s(Fraction(rng.choice([2, 5, 17]), rng.choice([1, 10]))), "ref": ref})
             elif r < 0.74:
@@ -68,6 +75,16 @@ class Check(Property):
                 steps.append({"f": "dim", "u": [[rng.choice(units), "1/1"]]})
             else:
                 steps.append({"f": "format", "u": [[rng.choice(units), "1/1"], ["second", "-1/1"]]})
+        # a default-system change made while a context with redefinitions is active (and the answers asked before and after)
+        if rng.random() < 0.5:
+            un = rng.choice(["foot", "inch", "pound", "mile", rng.choice(units)])
+            pat = [{"f": "base", "u": [[un, "1/1"]], "system": None}, {"f": "context", "on": True},
+                   {"f": "default_system", "s": rng.choice(SYSTEMS)}]
+            if rng.random() < 0.5:
+                pat.append({"f": "base", "u": [[un, "1/1"]], "system": None})
+            pat.append({"f": "context", "on": False})
+            pos = rng.randint(0, len(steps))
+            steps[pos:pos] = pat
         return steps
 
     def probes(self, rng, P, steps):
@@ -88,6 +105,8 @@ class Check(Property):
                             "dst": [[k, tw.get(e, e)] for k, e in s["dst"]]})
         for nm in defined:
             out.append({"f": "parse", "s": nm})
+            out.append({"f": "dim", "u": [[nm, "1/1"]]})
+            out.append({"f": "base", "u": [[nm, "1/1"]], "system": None})
             out.append({"f": "parse", "s": nm + "/second"})     # compound expressions mentioning the new spelling
             out.append({"f": "parse", "s": "meter/" + nm})
             out.append({"f": "root", "u": [[nm, "1/1"]]})
